@@ -156,6 +156,8 @@ def run_shard(ctx, p):
                 rec.inconclusive_because('batch run %s of converter %s hit the %ds wall-clock watchdog (files %s)' % (tag, conv, CHILD_TIMEOUT, kinds))
                 continue
             ev = analyse_events(events, din)
+            for lab, cnt in ((res or {}).get('mechanism_hits') or {}).items():
+                rec.mechanism_hits[lab + ' [driver process]'] += cnt
             rec.mon('worker_events', len(events))
             rec.add('tasks_observed', len(ev['order']))
             # ---- no abort
